@@ -347,11 +347,12 @@ class Noise(object):
 class Lexical(object):
     case_timeout = None  # run_parse() owns the interval timer
     name = 'lexical'
-    describe = ('2**64, 10**30 and their negations in every numeric token position; each of 25 forbidden ASN.1 words in '
+    describe = ('2**64, 10**30, their negations and -(2**63)-1 in every numeric token position; each of 25 forbidden ASN.1 words in '
                 'every identifier position; an identifier with a trailing hyphen in every identifier position; the '
                 'error must be a PySmiLexerError on exactly the line of that token')
 
-    BIG = ['18446744073709551616', '1' + '0' * 30, '-18446744073709551616', '9' * 5000]
+    BIG = ['18446744073709551616', '1' + '0' * 30, '-18446744073709551616', '9' * 5000, '-9223372036854775809',
+           '-18446744073709551615']
 
     def blocks(self, tier):
         seeds = QUICK_SEEDS + (MORE_SEEDS if tier == 'thorough' else [])
